@@ -19,7 +19,7 @@ PID = "C07"
 UNIVERSES = ["E", "M", "P", "O", "W", "T", "N"]
 # (longest arm list, lists longer than this hold at most one arm outside the Lite pool)
 BOUNDS = {
-    "quick":    {"E": (2, 2), "M": (2, 2), "P": (2, 2), "O": (3, 2), "W": (2, 2), "T": (2, 1), "N": (3, 2)},
+    "quick":    {"E": (2, 2), "M": (2, 2), "P": (2, 1), "O": (3, 2), "W": (2, 2), "T": (2, 1), "N": (3, 2)},
     "thorough": {"E": (3, 2), "M": (3, 2), "P": (3, 2), "O": (4, 2), "W": (3, 2), "T": (3, 2), "N": (4, 2)},
 }
 MODEL_INVARIANTS = ["ExhaustiveAgrees", "CexIsSound", "IrrefutableAgrees", "LastUsefulAgrees"]
